@@ -38,13 +38,18 @@ pub struct Texts {
     pub caps: Vec<usize>,
     pub reserves: Vec<usize>,
     pub statics: Vec<&'static str>,
+    /// start of the leaked buffer (front margin) of each static text
+    static_bufs: Vec<*const u8>,
     pub pristine: Vec<Vec<u8>>,
 }
 
 pub const STATIC_MARGIN: usize = 64;
 pub const STATIC_GUARD: u8 = 0xBF;
 
-fn leak_static(s: String) -> &'static str {
+/// Returns the text and the start of the whole leaked buffer (margin, text, margin). The text
+/// reference is derived from the raw buffer pointer, and the margins are only ever read through
+/// that raw pointer (so the harness itself stays within the aliasing rules Miri checks).
+fn leak_static(s: String) -> (&'static str, *const u8) {
     // harness-owned *writable* memory, so that a write through the borrowed pointer is
     // observable (pristine copy comparison) instead of a SIGSEGV. The text sits between two
     // margins of a fixed pattern (a UTF-8 continuation byte): a read past either end sees the
@@ -52,9 +57,10 @@ fn leak_static(s: String) -> &'static str {
     // `statics_intact`.
     let mut buf = vec![STATIC_GUARD; s.len() + 2 * STATIC_MARGIN];
     buf[STATIC_MARGIN..STATIC_MARGIN + s.len()].copy_from_slice(s.as_bytes());
-    let buf: &'static mut [u8] = Box::leak(buf.into_boxed_slice());
-    // SAFETY: the middle part is a copy of `s`
-    unsafe { std::str::from_utf8_unchecked(&buf[STATIC_MARGIN..STATIC_MARGIN + s.len()]) }
+    let raw: *mut u8 = Box::leak(buf.into_boxed_slice()).as_mut_ptr();
+    // SAFETY: the middle part is a copy of `s`; the buffer is never released
+    let text = unsafe { std::str::from_utf8_unchecked(std::slice::from_raw_parts(raw.add(STATIC_MARGIN), s.len())) };
+    (text, raw as *const u8)
 }
 
 impl Texts {
@@ -74,8 +80,8 @@ impl Texts {
             format!("static é€😀 {}", ascii(2 * INLINE + 8 - 17)),
         ];
         let pristine = st.iter().map(|s| s.as_bytes().to_vec()).collect();
-        let statics = st.into_iter().map(leak_static).collect();
-        Texts { src, strs, caps: vec![0, INLINE + 1, 2 * INLINE + 8], reserves: vec![0, 1, INLINE + 1, 2 * INLINE + 8], statics, pristine }
+        let (statics, static_bufs): (Vec<_>, Vec<_>) = st.into_iter().map(leak_static).unzip();
+        Texts { src, strs, caps: vec![0, INLINE + 1, 2 * INLINE + 8], reserves: vec![0, 1, INLINE + 1, 2 * INLINE + 8], statics, static_bufs, pristine }
     }
     pub fn static_id(&self, ptr: usize) -> Option<(usize, usize)> {
         for (i, s) in self.statics.iter().enumerate() {
@@ -87,10 +93,10 @@ impl Texts {
         None
     }
     pub fn statics_intact(&self) -> bool {
-        self.statics.iter().zip(&self.pristine).all(|(s, p)| {
-            // SAFETY: `leak_static` put STATIC_MARGIN guard bytes on both sides of the text
-            let whole = unsafe { std::slice::from_raw_parts(s.as_ptr().sub(STATIC_MARGIN), s.len() + 2 * STATIC_MARGIN) };
-            s.as_bytes() == &p[..] && whole[..STATIC_MARGIN].iter().chain(&whole[STATIC_MARGIN + s.len()..]).all(|&b| b == STATIC_GUARD)
+        self.statics.iter().zip(&self.static_bufs).zip(&self.pristine).all(|((s, &raw), p)| {
+            // SAFETY: `leak_static` made `raw` the start of margin + text + margin
+            let whole = unsafe { std::slice::from_raw_parts(raw, s.len() + 2 * STATIC_MARGIN) };
+            whole[STATIC_MARGIN..STATIC_MARGIN + s.len()] == p[..] && whole[..STATIC_MARGIN].iter().chain(&whole[STATIC_MARGIN + s.len()..]).all(|&b| b == STATIC_GUARD)
         })
     }
 }
